@@ -198,6 +198,8 @@ func init() {
 		rnd := gridSpec{P1: []int{2}, P2: allP2, P4: []int{1}, P5: []int{2}, SZ: []int{4}, Virt: []bool{false, true}}.list()
 		other := gridSpec{P1: allP1, P2: []int{0}, P4: []int{2, 3, 4, 6}, P5: []int{1, 3}, SZ: []int{4}}.list()
 		cheap := gridSpec{P1: allP1, P2: allP2, P4: []int{1}, P5: []int{2}, SZ: []int{4}, Virt: []bool{false, true}}.list()
+		// every positioner once at the deeper level too (positioners write into the same Size struct: X, Y next to W, H)
+		cheap = append(cheap, gridSpec{P1: []int{0}, P2: []int{0}, P4: []int{0, 2, 3, 4, 7}, P5: []int{0}, SZ: []int{1, 4}}.list()...)
 		d := tierPick(tier, 4, 5)
 		ps := []*Pass{
 			{Name: "G-main", Space: spaceG(1, d, 0, nil), Eval: stdEval("C02", staticGrid(g), or),
